@@ -105,6 +105,9 @@ class Effects:
                                         srcs.append(it.context_expr)
                 kinds = set()
                 for s in srcs:
+                    if isinstance(s, ast.Call):
+                        kinds |= self.returned_kinds(fn, s, depth + 1)
+                        continue
                     rn, ch, base = _chain(s)
                     if rn is not None and (ch or isinstance(s, ast.Name)) and rn.id != name:
                         tl = self.r.tl_of_expr(fn, s)
@@ -142,6 +145,53 @@ class Effects:
             return ("class", b.target.qualname)  # function object attribute (shared)
         return ("unknown", name)
 
+    def contextvar_of(self, fn, call: ast.Call):
+        """`X.get()` where X is a module-level `contextvars.ContextVar(...)`: (qualified name, default node|None)."""
+        f = call.func
+        if not (isinstance(f, ast.Attribute) and f.attr == "get" and isinstance(f.value, ast.Name)):
+            return None
+        b = self.m.resolve_name(fn, f.value.id)
+        if b.kind != "modvar":
+            return None
+        mod, nm = b.target
+        vals = [v for v in mod.assigns.get(nm, []) if v is not None]
+        if len(vals) != 1 or not isinstance(vals[0], ast.Call):
+            return None
+        d = vals[0].func
+        txt = ast.unparse(d)
+        head = mod.imports.get(txt.split(".")[0], "")
+        full = ".".join([head] + txt.split(".")[1:]) if head else txt
+        if not full.endswith("ContextVar") or "contextvars" not in full:
+            return None
+        default = next((k.value for k in vals[0].keywords if k.arg == "default"), None)
+        return (f"{mod.short}.{nm}", default)
+
+    def returned_kinds(self, fn, call: ast.Call, depth: int = 0) -> set:
+        """Root kinds of the objects an internal function can return (each `return <name/attr chain>`
+        classified in the callee): {('modvar', '_storage._toplevel_state'), ('tl', ..), ('local', ..)}."""
+        if depth > 2:
+            return set()
+        t = self.m.resolve_call(fn, call)
+        if t.kind != "func":
+            return set()
+        h = t.target
+        out = set()
+        for n in walk_scope(h.node):
+            if isinstance(n, ast.Return) and n.value is not None:
+                v = n.value
+                if isinstance(v, ast.Call):
+                    out |= self.returned_kinds(h, v, depth + 1)
+                    continue
+                rn, ch, base = _chain(v)
+                if rn is None:
+                    continue
+                tl = self.r.tl_of_expr(h, v, self.r.local_aliases(h))
+                if tl is not None:
+                    out.add(("tl", tl[0][1]))
+                    continue
+                out.add(self.root_kind(h, rn.id, depth + 1))
+        return out
+
     def stores(self, fn: FuncInfo) -> list:
         if fn.qualname in self._cache:
             return self._cache[fn.qualname]
@@ -151,6 +201,21 @@ class Effects:
             rn, chain, base = _chain(target_expr)
             if rn is None:
                 if isinstance(base, ast.Call):
+                    cv = self.contextvar_of(fn, base)
+                    if cv is not None:
+                        name_, default = cv
+                        mutable = default is not None and not isinstance(default, ast.Constant) and not (isinstance(default, ast.Tuple) and not default.elts)
+                        if mutable:
+                            # ContextVar(default=[...]): `.get()` hands every thread the one default object
+                            out.append(Store(fn, node, "modvar", f"{name_} (the shared `default=` object of a ContextVar)", ".".join(chain), how))
+                        else:
+                            out.append(Store(fn, node, "tl", name_, ".".join(chain), how))
+                        return
+                    shared = [k for k in self.returned_kinds(fn, base, 0) if k[0] in ("modvar", "class", "ext", "global")]
+                    if shared:
+                        # the callee can hand out a shared (module-level / class-level) object: the store goes there
+                        out.append(Store(fn, node, shared[0][0], shared[0][1], ".".join(chain), how))
+                        return
                     out.append(Store(fn, node, "call-result", ast.unparse(base)[:40], ".".join(chain), how))
                 else:
                     out.append(Store(fn, node, "unknown", "?", ".".join(chain), how))
